@@ -52,7 +52,7 @@ Definition nsem (N : list elem) : list (sem K) := map esem N.
 
 (* values that the formulas divide by *)
 Definition valid (e : elem) : Prop :=
-  match etyp e with TR | TNR | TZ | TY | TC => eval e <> f0 | _ => True end.
+  match etyp e with TR | TNR | TZ | TY | TC | TL => eval e <> f0 | _ => True end.
 
 (* Thevenin data of an element: impedance and source term (+ to -) *)
 Definition tz (e : elem) : K :=
@@ -333,5 +333,124 @@ Proof.
     rewrite (proj1 (AT m Hm)), (PO m Hm). destruct (snd m); cbn; ring.
   - unfold te at 1. rewrite Et, Et0, Ek, Ev, value_signed_plain, sgn_mul. unfold vsum. rewrite sgn_ksum, map_map, <- ksum_scale, map_map.
     unfold tesum. apply ksum_map_ext. intros m Hm. unfold te. rewrite (proj1 (AT m Hm)), sgn_mul, (KW m Hm), (PO m Hm). reflexivity.
+Qed.
+
+(* ================= parallel: Norton sums of the combined element ============== *)
+Lemma pstep_norton (e : elem) (fw : bool) (b : branch K) :
+  branch_of e = Some b -> valid e -> etyp e <> TL -> etyp e <> TV -> etyp e <> TW ->
+  norton (fw, b) /\ py (fw, b) = ty e /\ pj (fw, b) = sgn fw (tj e).
+Proof.
+  unfold branch_of, valid, norton, py, pj, ty, tj. intros Hb Hv H1 H2 H3.
+  destruct (etyp e); inversion Hb; subst; cbn [fst snd]; try congruence;
+  (split; [exact I | split; [reflexivity | first [reflexivity | destruct fw; cbn [sgn]; ring]]]).
+Qed.
+Lemma pstep_bz (e : elem) (fw : bool) (b : branch K) :
+  branch_of e = Some b -> valid e -> etyp e = TL ->
+  zwf (fw, b) /\ pz (fw, b) = ty e /\ pe (fw, b) = sgn fw (tj e) /\ exists Zb E, b = BZ Zb E (zname (ename e)).
+Proof.
+  unfold branch_of, valid, zwf, pz, pe, ty, tj. intros Hb Hv Ht. rewrite Ht in *. inversion Hb; subst; cbn [fst snd].
+  split; [apply mul_nz; assumption|]. split; [reflexivity|]. split; [destruct fw; cbn [sgn]; fsd | eexists; eexists; reflexivity].
+Qed.
+
+Definition tysum (ms : list mem_t) : K := ksum (map (fun m => ty (fst m)) ms).
+Definition tjsum (ms : list mem_t) : K := ksum (map (fun m => sgn (snd m) (tj (fst m))) ms).
+Lemma tjsum_zero t (ms : list mem_t) : all_type t ms -> (forall e, etyp e = t -> tj e = f0) -> tjsum ms = f0.
+Proof. intros AT H. unfold tjsum. apply ksum_zero. intros m Hm. rewrite (H _ (proj1 (AT m Hm))). apply sgn_zero. Qed.
+
+Lemma parallel_ty vr t (ms : list mem_t) m0 ms' add common signed nm new :
+  ms = m0 :: ms' -> all_type t ms -> parallel_action t = Ok (ACombine add common signed) ->
+  (add = false -> rsum ms <> f0) ->
+  new_elem vr (els_of ms) (sames_of ms) add common signed nm = Ok new ->
+  ty new = tysum ms.
+Proof.
+  intros E AT SA Hr H. destruct (new_elem_inv vr ms add common signed nm new m0 ms' E H) as [Et [_ [_ [_ [_ [Ev _]]]]]].
+  assert (Et0 : etyp (fst m0) = t) by (apply AT; rewrite E; left; reflexivity).
+  unfold ty at 1. unfold tysum. rewrite Et, Et0.
+  destruct t; cbn in SA; inversion SA; subst add common signed; clear SA.
+  - rewrite Ev, value_recip. specialize (Hr eq_refl). transitivity (rsum ms); [fsd|]. unfold rsum.
+    apply ksum_map_ext. intros m Hm. unfold ty. rewrite (proj1 (AT m Hm)). reflexivity.
+  - rewrite Ev, value_recip. specialize (Hr eq_refl). transitivity (rsum ms); [fsd|]. unfold rsum.
+    apply ksum_map_ext. intros m Hm. unfold ty. rewrite (proj1 (AT m Hm)). reflexivity.
+  - rewrite Ev, value_add. unfold vsum. rewrite <- ksum_scale, map_map. apply ksum_map_ext. intros m Hm. unfold ty. rewrite (proj1 (AT m Hm)). reflexivity.
+  - rewrite Ev, value_recip. specialize (Hr eq_refl). transitivity (fmul (fdiv f1 s) (rsum ms)); [fsd|].
+    unfold rsum. rewrite <- ksum_scale, map_map. apply ksum_map_ext. intros m Hm. unfold ty. destruct (AT m Hm) as [A1 A2]. rewrite A1.
+    unfold valid in A2. rewrite A1 in A2. fsd.
+  - rewrite Ev. assert (Ez : forall m, In m ms -> ty (fst m) = f0) by (intros m Hm; unfold ty; rewrite (proj1 (AT m Hm)); reflexivity).
+    symmetry. apply ksum_zero. exact Ez.
+  - rewrite Ev, value_recip. specialize (Hr eq_refl). transitivity (rsum ms); [fsd|]. unfold rsum.
+    apply ksum_map_ext. intros m Hm. unfold ty. rewrite (proj1 (AT m Hm)). reflexivity.
+  - rewrite Ev, value_add. unfold vsum. apply ksum_map_ext. intros m Hm. unfold ty. rewrite (proj1 (AT m Hm)). reflexivity.
+Qed.
+
+Definition plain_ok_parallel (t : ety) (ms : list mem_t) (m0 : mem_t) : Prop :=
+  match t with
+  | TI => forall m, In m ms -> snd m = snd m0
+  | TL => (forall m, In m ms -> snd m = snd m0 \/ icv (fst m) = f0) /\
+          (has_ic (fst m0) = false -> forall m, In m ms -> icv (fst m) = f0)
+  | TC => forall m, In m ms -> icv (fst m) = f0
+  | _ => True end.
+
+Lemma parallel_tj_rep t (ms : list mem_t) m0 ms' add common signed nm new :
+  ms = m0 :: ms' -> all_type t ms -> parallel_action t = Ok (ACombine add common signed) -> same_kwf ms m0 ->
+  (common = true -> exists e0, check_ic keqb repaired e0 (els_of ms) (sames_of ms) = Ok true) ->
+  new_elem repaired (els_of ms) (sames_of ms) add common signed nm = Ok new ->
+  sgn (snd m0) (tj new) = tjsum ms.
+Proof.
+  intros E AT SA KW CK H. destruct (new_elem_inv repaired ms add common signed nm new m0 ms' E H) as [Et [_ [_ [Ek [_ [Ev Eic]]]]]].
+  assert (Et0 : etyp (fst m0) = t) by (apply AT; apply (In_first ms m0 ms' E)).
+  destruct t; cbn in SA; inversion SA; subst add common signed; clear SA;
+    try (rewrite (tjsum_zero _ ms AT) by (intros e He; unfold tj; rewrite He; reflexivity);
+         unfold tj; rewrite Et, Et0; apply sgn_zero).
+  - (* C: parallel, common initial voltage *)
+    destruct (CK eq_refl) as [e0 Hc]. pose proof (check_rep e0 ms m0 ms' E Hc) as CR.
+    unfold tj at 1. rewrite Et, Et0, Ev, value_add, (icv_of_opt _ new eq_refl), (ic_rep_common ms m0 ms' (eic new) E Eic).
+    unfold tjsum, vsum. transitivity (ksum (map (fun m => sgn (snd m0) (fmul (eval (fst m)) (icv (fst m0)))) ms)).
+    + rewrite <- (map_map (fun m => fmul (eval (fst m)) (icv (fst m0))) (sgn (snd m0))), <- sgn_ksum. f_equal.
+      clear. induction ms as [|m ms IH]; cbn [ksum map]; [ring|]. rewrite <- IH. ring.
+    + apply ksum_map_ext. intros m Hm. unfold tj. rewrite (proj1 (AT m Hm)). destruct (CR m Hm) as [C1 [C2|C2]].
+      * rewrite C2, C1. reflexivity.
+      * rewrite <- C1, C2. destruct (snd m), (snd m0); cbn; ring.
+  - (* L: parallel, initial currents add with orientation *)
+    unfold tj at 1. rewrite Et, Et0. rewrite (icv_of_opt _ new eq_refl), (ic_rep_noncommon ms m0 ms' (eic new) E Eic).
+    rewrite sgn_opp, sgn_div by exact s_nz. unfold icsum_signed. rewrite sgn_ksum, map_map.
+    unfold tjsum. transitivity (ksum (map (fun m => fopp (fdiv (sgn (snd m) (icv (fst m))) s)) ms)).
+    + clear -s_nz. induction ms as [|m ms IH]; cbn [ksum map]; [field; exact s_nz|]. rewrite <- IH, sgn_ksgn. field. exact s_nz.
+    + apply ksum_map_ext. intros m Hm. unfold tj. rewrite (proj1 (AT m Hm)), sgn_opp, sgn_div by exact s_nz. reflexivity.
+  - (* I: parallel, values add with orientation *)
+    unfold tj at 1. rewrite Et, Et0, Ek, Ev, (value_signed_rep ms m0 ms' E), sgn_mul, sgn_ksum, map_map, <- ksum_scale, map_map.
+    unfold tjsum. apply ksum_map_ext. intros m Hm. unfold tj. rewrite (proj1 (AT m Hm)), sgn_ksgn, sgn_mul, (KW m Hm). reflexivity.
+Qed.
+
+Lemma parallel_tj_plain t (ms : list mem_t) m0 ms' add common signed nm new :
+  ms = m0 :: ms' -> all_type t ms -> parallel_action t = Ok (ACombine add common signed) -> same_kwf ms m0 ->
+  plain_ok_parallel t ms m0 ->
+  new_elem unchanged_tree (els_of ms) (sames_of ms) add common signed nm = Ok new ->
+  sgn (snd m0) (tj new) = tjsum ms.
+Proof.
+  intros E AT SA KW PO H. destruct (new_elem_inv unchanged_tree ms add common signed nm new m0 ms' E H) as [Et [_ [_ [Ek [_ [Ev Eic]]]]]].
+  assert (Et0 : etyp (fst m0) = t) by (apply AT; apply (In_first ms m0 ms' E)).
+  destruct t; cbn in SA; inversion SA; subst add common signed; clear SA;
+    try (rewrite (tjsum_zero _ ms AT) by (intros e He; unfold tj; rewrite He; reflexivity);
+         unfold tj; rewrite Et, Et0; apply sgn_zero).
+  - unfold tj at 1. rewrite Et, Et0, (icv_of_opt _ new eq_refl), (ic_plain true ms m0 ms' (eic new) E Eic).
+    assert (Z0 : icsum_plain ms = f0) by (apply ksum_zero; exact PO).
+    replace (if has_ic (fst m0) then icsum_plain ms else f0) with (f0 : K) by (destruct (has_ic (fst m0)); [symmetry; exact Z0 | reflexivity]).
+    transitivity (f0 : K); [destruct (snd m0); cbn; ring|]. symmetry. apply ksum_zero. intros m Hm. unfold tj.
+    rewrite (proj1 (AT m Hm)), (PO m Hm). destruct (snd m); cbn; ring.
+  - destruct PO as [P1 P2].
+    unfold tj at 1. rewrite Et, Et0. rewrite (icv_of_opt _ new eq_refl), (ic_plain false ms m0 ms' (eic new) E Eic).
+    rewrite sgn_opp, sgn_div by exact s_nz. unfold tjsum.
+    transitivity (ksum (map (fun m => fopp (fdiv (sgn (snd m) (icv (fst m))) s)) ms)).
+    + destruct (has_ic (fst m0)) eqn:Eh.
+      * unfold icsum_plain. rewrite sgn_ksum, map_map.
+        transitivity (fopp (fdiv (ksum (map (fun m => sgn (snd m) (icv (fst m))) ms)) s)).
+        -- f_equal. f_equal. apply ksum_map_ext. intros m Hm. destruct (P1 m Hm) as [Q|Q]; [rewrite Q; reflexivity | rewrite Q, !sgn_zero; reflexivity].
+        -- clear -s_nz. induction ms as [|m ms IH]; cbn [ksum map]; [field; exact s_nz|]. rewrite <- IH. field. exact s_nz.
+      * rewrite sgn_zero. symmetry.
+        rewrite (ksum_zero (fun m => fopp (fdiv (sgn (snd m) (icv (fst m))) s))); [field; exact s_nz|].
+        intros m Hm. rewrite (P2 eq_refl m Hm), sgn_zero. field. exact s_nz.
+    + apply ksum_map_ext. intros m Hm. unfold tj. rewrite (proj1 (AT m Hm)), sgn_opp, sgn_div by exact s_nz. reflexivity.
+  - unfold tj at 1. rewrite Et, Et0, Ek, Ev, value_signed_plain, sgn_mul. unfold vsum. rewrite sgn_ksum, map_map, <- ksum_scale, map_map.
+    unfold tjsum. apply ksum_map_ext. intros m Hm. unfold tj. rewrite (proj1 (AT m Hm)), sgn_mul, (KW m Hm), (PO m Hm). reflexivity.
 Qed.
 End Sem.
